@@ -62,9 +62,10 @@ reg('C01', ['u_dfa', 'u_mode', 'u_iter', 'u_build'],
     'find_from ensures find_post (longest accepted non-empty prefix; ties -> first in terminal_ids) for every wf automaton, class predicate and input; ScannerImpl::find_from/peek_from the same for the active mode; next_match ensures is_next_tok: the token is the find_post outcome at the first char index >= cursor that has any candidate, skipped positions have none, spans absolute (add_offset), cursor moves to the token end; None only if no position has a candidate; lemma_stream_unique: for lookahead-free configurations the whole stream (stream_from = chain of is_next_tok with the mode following the transitions) is a function of configuration, input, position and mode ("exactly the tokens")',
     [WF, CLS, ITER, UTF8, C02DEP, 'add_patterns (token type = pattern index) is not under contract: Vec<Pattern> construction through iterator adapters'],
     technique='Verus function contracts (requires/ensures/loop invariants) on code extracted from /repo each run')
-reg('C04', ['u_dfa', 'u_mode', 'u_iter', 'u_build'],
+reg('C04', ['u_dfa', 'u_mode', 'u_iter', 'u_build', 'u_c04find'],
     'a reported token is a cand: accepted by its pattern automaton AND la_ok(tid, rest at token end) (positive: some non-empty prefix of the rest matched by the lookahead automaton; negative: none; empty rest => positive fails); span end = start + own bytes (lookahead never inside); converse: find_post forbids None while a candidate exists; call sites next_match/peek_n establish that the haystack slice and the iterator indices refer to the same text for every offset (ci_at precondition of find_from)',
-    [WF, CLS, ITER, UTF8, C02DEP])
+    [WF, CLS, ITER, UTF8, C02DEP,
+     'KNOWN FINDING D9 (genuine defect, not repaired; known_findings.txt, findings/D9_shared_token_type_lookahead.json): the pattern-level reading of C04 (every pattern gated by ITS OWN lookahead, theorem_scanner_cand) holds only for modes in which patterns sharing a token type carry the same lookahead (la_consistent): lookaheads are stored per token type, the last one wins and gates all patterns of that token type (proved: lemma_scanner_cand_last). Unit U-c04find carries the property-faithful obligation without that hypothesis; it fails on every run and is reported as KNOWN-FINDING'])
 reg('C05', ['u_dfa', 'u_build'], 'find_post: the reported (length, token type) is one candidate with satisfied lookahead that is no_better-maximal in extent = own bytes + longest positive-lookahead match, ties by first position in terminal_ids; all unwrap/index/overflow obligations of find_from, priority_of, satisfies_lookahead', [WF, CLS])
 
 reg('C06', ['u_mode', 'u_iter', 'u_api', 'u_build'], 'mode after every operation is the function of (old mode, token type, transition list) the property states: has_transition == lookup in the sorted list; find_from switches, peek_from/has_transition/current_mode do not, set_mode sets, reset gives 0', [WF, 'set_mode(m) is called with m < number of modes (documented precondition)'])
